@@ -437,7 +437,7 @@ func quoteVariant(r *hlib.Rng, v []byte) []byte {
 
 func genAddr6(r *hlib.Rng) []byte {
 	a := make([]byte, 16)
-	switch r.Pick([]int{4, 3, 4, 1, 1, 1}) {
+	switch r.Pick([]int{5, 4, 2, 1, 1, 1}) {
 	case 0:
 		copy(a, r.Bytes(16, nil))
 	case 1: // runs of zero groups
@@ -805,7 +805,7 @@ func hugeInputs() []input {
 	id254 := strings.Repeat("k", 254)
 	id255 := strings.Repeat("m", 255)
 	return []input{
-		{text: []byte("alpn=" + strings.Repeat(id254+"|", 256) + id254), class: "huge-65535"},      // 257*255 = 65535
+		{text: []byte("alpn=" + strings.Repeat(id254+"|", 256) + id254), class: "huge-65535"},        // 257*255 = 65535
 		{text: []byte("port=1;alpn=" + strings.Repeat(id255+"|", 255) + id255), class: "huge-65536"}, // 256*256 = 65536
 		{text: []byte("ipv6hint=" + strings.Repeat("::|", 4095) + "::;port=80"), class: "huge-65536"},
 	}
